@@ -91,15 +91,6 @@ func runImages(c *hlib.Ctx) {
 		if res == "" {
 			res = summarize(img)
 		}
-		if name == "bpt" {
-			// The bidirectional estimator's per-sample value involves multiple-importance weights
-			// (libm pow, densities): validated only as "every pixel is the same finite value".
-			c.Stat("img.bpt-runs", 1)
-			if strings.Count(res, "*") != 1 {
-				c.Stat("img.bpt-not-constant", 1)
-			}
-			continue
-		}
 		c.Emit(fmt.Sprintf("c20 img %s %d %d %d %d %d %s %s", name, w, h, procs, n, minS, hlib.Hex(maxStd), hex3(e)), res)
 		c.Stat("img."+name, 1)
 	}
